@@ -33,7 +33,8 @@ LATTICES = [
 def required_cells(tier):
     return {"method:tempo": 4, "method:pt": 4, "method:meanfield": 3,
             "merged": 10, "total-degeneracy": 1, "no-degeneracy": 1,
-            "rotated": 3, "memory:cut": 3, "meanfield:two-species": 2}
+            "rotated": 3, "memory:cut": 3, "meanfield:two-species": 2,
+            "shared-bath-read-between-runs": 6}
 
 
 def cases(tier, seed):
@@ -90,9 +91,39 @@ def run_case(case):
         h = gen.rand_herm(rng, d, 0.7)
         sysm = oqupy.System(h, [float(rng.uniform(0.05, 0.3))],
                             [gen.cplx(rng, (d, d), 0.5)])
-        run = lib.run_tempo if method == "tempo" else lib.run_pt
-        da = run(sysm, oper, corr, rho0, start, dt, nsteps, params, False)
-        db = run(sysm, oper, corr, rho0, start, dt, nsteps, params, True)
+        shared = bool((i // 2) % 2)
+        if shared:
+            # ONE Bath object serves both runs; in between the caller reads
+            # its array-valued attributes and post-processes what was
+            # returned in place (sorting the class maps to count class sizes,
+            # normalising the operator) - arrays handed out belong to the
+            # caller and must not be the Bath's own
+            def peek(b):
+                for name in ("north_degeneracy_map", "west_degeneracy_map",
+                             "coupling_operator", "unitary_transform"):
+                    arr = getattr(b, name)
+                    if isinstance(arr, np.ndarray) and arr.flags.writeable:
+                        arr.sort(axis=0)
+                        arr[...] = arr[::-1]
+                        if arr.size:
+                            arr.flat[0] = 0
+
+            def run(uq):
+                if method == "tempo":
+                    return oqupy.Tempo(sysm, bath, params, rho0, start,
+                                       unique=uq).compute(
+                        lib.end_time(start, dt, nsteps),
+                        progress_type="silent")
+                return lib.run_pt_bath(sysm, bath, rho0, start, dt, nsteps,
+                                       params, uq)
+            peek(bath)
+            da = run(False)
+            peek(bath)
+            db = run(True)
+        else:
+            run = lib.run_tempo if method == "tempo" else lib.run_pt
+            da = run(sysm, oper, corr, rho0, start, dt, nsteps, params, False)
+            db = run(sysm, oper, corr, rho0, start, dt, nsteps, params, True)
         sa, sb = np.array(da.states), np.array(db.states)
     else:
         # one or two species; the second species has a different coupling
@@ -154,6 +185,8 @@ def run_case(case):
     cells = ["method:" + method]
     if cells_two:
         cells.append("meanfield:two-species")
+    if method in ("tempo", "pt") and shared:
+        cells.append("shared-bath-read-between-runs")
     if merged:
         cells.append("merged")
     if n_west == 1:
